@@ -237,9 +237,11 @@ prop("C06", ["prims.go", "c06.go"],
 prop("C07", ["prims.go", "c07.go"],
      [run("routing", "harnessC07", ["accept-first", "dial-first", "routed"], dpor=True,
           quick={"max_reversals": 1, "bound": "ID a accepted on the plugin and dialled from the host, ID b the other way round; symbolic distinct IDs; symbolic gap < 5 s either order; identity and namespace-translating runner; <= 1 reversal"},
-          thorough={"max_reversals": 2, "max_wall_s": 1500, "bound": "as quick with <= 2 reversals"})],
+          thorough={"max_reversals": 2, "max_wall_s": 1500, "bound": "as quick with <= 2 reversals"}),
+      run("multi", "harnessC07multi", ["accept-first", "dial-first", "routed"], dpor=True,
+          quick={"max_reversals": 1, "bound": "three IDs outstanding at once, two of them in the same direction (both accepted on the plugin and dialled from the host), all accepts before all dials or the reverse, symbolic distinct IDs and gap; <= 1 reversal"})],
      [GRPCSEAM, GHOSTFS, "broker stream = FIFO pair; Send copies the message"], ["grpc", "net.Listen", "generated broker stream"],
-     "TLS and tagging address translators; 3 IDs; the transport under gRPC",
+     "TLS on brokered connections (C12); more than 3 IDs; the transport under gRPC",
      text="Bounded symbolic model checking of the real GRPCBroker (non-mux Accept, DialWithOptions, Run, getClientStream, timeoutWait), the real gRPCBrokerServer/gRPCBrokerClientImpl pumps and dialGRPCConn: the connection dialled for ID n reaches the listener created by Accept(n), in both directions and either order.",
      note="Bound: 2 IDs, DPOR with 1 reversal. " + ENGINE)
 prop("C08", ["prims.go", "c08.go"],
